@@ -380,7 +380,9 @@ fn history(out: &mut Out, r: &mut Rng, cx: &Cx, tag: &str, len: usize) {
                     continue;
                 }
                 // (with a caller-supplied u generator equal states give equal u, and after the modulus switch usually equal c1: by design, not counted)
-                if !explicit { h.masks.push(samples[0].data.clone()); h.masks.push(ct.poly(1).to_vec()); }
+                // (the ternary mask u lives in a space of 3^N polynomials: for N < 32 two of a few dozen draws coincide by chance, so u is only
+                // counted as a mask from N = 32 on; c1 = a*u + e1 is counted always)
+                if !explicit { if cx.n >= 32 { h.masks.push(samples[0].data.clone()); } h.masks.push(ct.poly(1).to_vec()); }
                 let probe = if explicit { Some(probe8(&mut g)) } else { None };
                 emit_asym(out, &format!("asym{}-{}", if explicit { "-explicit" } else { "" }, cls), &ent, if explicit { Some((gseed, pre)) } else { None }, used,
                           &samples[0], &samples[1..].iter().collect::<Vec<_>>(), probe);
